@@ -291,10 +291,10 @@ func handleUIDStore(deps ServerDeps, conn net.Conn, tag string, parts []string, 
 			cleanedFlagsStr := flagSetToString(cleanedFlags)
 
 			// Move to Spam folder
-			err = message.MoveMessageToMailbox(targetDB, messageID, state.SelectedMailboxID, int64(uid), "Spam", targetUserID, cleanedFlagsStr, internalDate)
+			moved, err := message.MoveMessageToMailbox(targetDB, messageID, state.SelectedMailboxID, int64(uid), "Spam", targetUserID, cleanedFlagsStr, internalDate)
 			if err != nil {
 				log.Printf("Failed to move message %d to Spam: %v", messageID, err)
-			} else {
+			} else if moved {
 				log.Printf("Auto-moved message %d to Spam folder (Junk flag added)", messageID)
 				// Send EXPUNGE notification to tell client the message is gone from this mailbox
 				if !silent {
@@ -309,10 +309,10 @@ func handleUIDStore(deps ServerDeps, conn net.Conn, tag string, parts []string, 
 			cleanedFlagsStr := flagSetToString(cleanedFlags)
 
 			// Move to INBOX
-			err = message.MoveMessageToMailbox(targetDB, messageID, state.SelectedMailboxID, int64(uid), "INBOX", targetUserID, cleanedFlagsStr, internalDate)
+			moved, err := message.MoveMessageToMailbox(targetDB, messageID, state.SelectedMailboxID, int64(uid), "INBOX", targetUserID, cleanedFlagsStr, internalDate)
 			if err != nil {
 				log.Printf("Failed to move message %d to INBOX: %v", messageID, err)
-			} else {
+			} else if moved {
 				log.Printf("Auto-moved message %d to INBOX (NonJunk flag added)", messageID)
 				// Send EXPUNGE notification to tell client the message is gone from this mailbox
 				if !silent {
